@@ -36,6 +36,8 @@ for m in muts:
         print("PATCH DOES NOT APPLY:", m)
         continue
     for p in props:
+        if os.environ.get("ONLY_OWN") and p != m[:3]:
+            continue
         jobs.append((m, p, wt))
 res = {}
 with cf.ThreadPoolExecutor(max_workers=14) as ex:
@@ -47,7 +49,8 @@ for m, wt in wts.items():
     for d in (f"/tmp/wtm/ev_{m}", f"/tmp/wtm/rp_{m}"):
         shutil.rmtree(d, ignore_errors=True)
 old = json.load(open(f"{V}/seeded/matrix.json")) if os.path.exists(f"{V}/seeded/matrix.json") and only else {}
-old.update(res)
+for m_, r_ in res.items():
+    old.setdefault(m_, {}).update(r_)
 json.dump(old, open(f"{V}/seeded/matrix.json", "w"), indent=1, sort_keys=True)
 for m in sorted(res):
     own = m[:3]
